@@ -58,11 +58,37 @@ def enc_value(x):
     return {"k": "f", "v": enc_fmtstr(x)}
 
 
+WARM = 0   # bit mask: the operands built next are looked at first (1 .s, 2 str(), 4 .width, 8 len() / hash / width_at_offset)
+
+
+def warm(f, mask):
+    """Look at a value the way a caller could have before handing it to an operation: fills the memo fields
+    (FmtStr._s/_len/_width, Chunk.color_str) that an operation might wrongly share or inherit."""
+    if mask & 1:
+        f.s
+    if mask & 2:
+        str(f)
+    if mask & 4:
+        try:
+            f.width
+        except Exception:  # noqa
+            pass
+    if mask & 8:
+        len(f)
+        hash(f)
+        try:
+            f.width_at_offset(len(f))
+        except Exception:  # noqa
+            pass
+    return f
+
+
 def build_fmtstr(runs):
     """runs -> real FmtStr built from Chunks (used by enumerations; the public constructors are
     exercised separately by C14/C01 spellings)."""
     from curtsies.formatstring import FmtStr, Chunk
-    return FmtStr(*(Chunk(dec_text(t), dec_atts(a)) for t, a in runs))
+    f = FmtStr(*(Chunk(dec_text(t), dec_atts(a)) for t, a in runs))
+    return warm(f, WARM) if WARM else f
 
 
 def build_value(v):
